@@ -158,6 +158,10 @@ impl RandGen<'_> {
                 } else {
                     None
                 };
+                // a record over a finite key set (Record<"a"|"b", V>) never names those keys as well
+                if matches!(&index, Some((k, _, _)) if !matches!(k.kind, RuntypeKind::String)) {
+                    props.retain(|(k, _, _)| *k != "a" && *k != "b");
+                }
                 obj(props, index)
             }
             5..=7 => {
